@@ -13,6 +13,7 @@
 (*   g.attrs[x]        record: carried attribute -> text of the literal    *)
 (*   g.kids[x], g.plist[x]   sets of hasSection / hasProperty targets      *)
 (*   g.vals[x]         the value sequence (same tokens as st.vals)         *)
+(*   g.repo[x], g.hubterms   repository URLs x / the Hub point to          *)
 (* w.rdfvals[x]: the values as RDF literals carry them (an n-tuple as the   *)
 (* text "(a;b)").                                                          *)
 (* w is the full world (OdmlClone) of the exported documents; attribute    *)
@@ -38,6 +39,10 @@ AttrsOK(w, docs, g) == \A x \in InDocs(w, docs) : g.attrs[x] = w.rdfattrs[x]
 AttrMismatch(w, docs, g) == {a \in UNION {DOMAIN g.attrs[x] \cup DOMAIN w.rdfattrs[x] : x \in InDocs(w, docs)} :
                                \E x \in InDocs(w, docs) : (a \in DOMAIN g.attrs[x]) # (a \in DOMAIN w.rdfattrs[x])
                                                           \/ (a \in DOMAIN g.attrs[x] /\ a \in DOMAIN w.rdfattrs[x] /\ g.attrs[x][a] # w.rdfattrs[x][a])}
+\* the repository of a Document / Section (its own, not an inherited one): the node points to a terminology
+\* node typed as that URL; the Hub lists exactly the terminologies in use.  g.repo[x]: URLs x points to
+RepoOK(w, docs, g) == /\ \A x \in InDocs(w, docs) : g.repo[x] = (IF w.rdfrepo[x] = "none" THEN {} ELSE {w.rdfrepo[x]})
+                      /\ g.hubterms = {w.rdfrepo[x] : x \in InDocs(w, docs)} \ {"none"}
 \* containment
 ChildrenOK(w, docs, g) == \A x \in InDocs(w, docs) : g.kids[x] = SeqRange(w.kids[x]) /\ g.plist[x] = SeqRange(w.plist[x])
 \* each Property's values form an ordered sequence
